@@ -138,7 +138,7 @@ fn run_group(out: &mut Out, par_out: &mut Out, group: u64, spec: &Value) {
         "real" => go!(
             RealProblem::new(prob["f"].as_u64().unwrap_or(0) as u8, prob["dim"].as_u64().unwrap() as usize, prob["lo"].as_f64().unwrap(), prob["hi"].as_f64().unwrap()),
             real_template::<RealProblem>(name, params, n),
-            templates_extra::real_extra(name, params)
+            templates_extra::real_extra(name, params, n)
         ),
         "bits" => go!(BitProblem::new(prob["dim"].as_u64().unwrap() as usize), bit_template::<BitProblem>(name, params, n), {
             let e: Extra<BitProblem> = Box::new(|_, _, _| (Vec::new(), json!({})));
